@@ -158,9 +158,6 @@ func (it *Interp) load(t []string) string {
 	if outlier.IsValidRule(r) != nil || circuitbreaker.IsValidRule(r.Rule) != nil {
 		return "invalid"
 	}
-	if old, ok := it.rules[name]; ok && old.cbPart != cbPart {
-		return "unsupported-reload"
-	}
 	if _, ok := it.rules[name]; !ok {
 		it.order = append(it.order, name)
 	}
